@@ -262,7 +262,7 @@ pub fn oracle(case: &Case, st: &mut Stats) -> Result<(), String> {
 
 pub const SIGMA: &[char] = &[
     '<', '>', '/', '!', '-', '?', '=', '"', '\'', '&', '#', ';', ']', '[', 'a', 'A', 'x', 's', '1', '\t', '\n', '\r', '\x0C',
-    ' ', '\0', 'é',
+    ' ', '\0', 'é', 'É',
 ];
 
 #[derive(Clone)]
@@ -523,7 +523,10 @@ pub fn decode_random(s: &mut Src) -> Case {
             let n = s.range(1, 4);
             let mut m = vec![];
             for _ in 0..n {
-                let name = s.pick(&["a", "b", "title", "script", "svg", "p", "style", "xmp", "div", "textarea"]).to_string();
+                let mut name = s.pick(&["a", "b", "title", "script", "svg", "p", "style", "xmp", "div", "textarea"]).to_string();
+                if s.chance(70) {
+                    name.insert(0, '/'); // switch in answer to the end tag
+                }
                 let act = *s.pick(&[
                     Action::Continue,
                     Action::Plaintext,
@@ -545,7 +548,7 @@ pub fn decode_random(s: &mut Src) -> Case {
 
 pub fn run(ctx: &Ctx) -> Report {
     let mut rep = Report::new(
-        "(1) bounded-exhaustive: every string of length <= L over a 26-character alphabet of the characters the tokenizer spec distinguishes (< > / ! - ? = \" ' & # ; ] [ a A x s 1 TAB LF CR FF SPACE NUL é) appended to every start: each of the 24 token-free states cold through TokenizerOpts::initial_state, and ~100 priming prefixes from Data/RCDATA/RAWTEXT/script states reaching every other tokenizer state, partial look-ahead keywords and character-reference prefixes, plus sink policies switching to RCDATA/RAWTEXT/script data/PLAINTEXT/Script on <a>, CDATA allowed or not; (2) random token soup (dictionary of ~130 syntax fragments + arbitrary Unicode + character noise) x random cold start x last-start-tag name x sink policy (HTML-like, generated start-tag map, all-continue) x CDATA answer x exact_errors. Oracle: independent transcription of WHATWG 13.2.5 (refimpl::tokenizer) under the same policy; streams compared after the normalisation the property states. Non-trivial: stream has a non-character token, or the start state is not Data, or a character reference was resolved; distinct by hash of the case.",
+        "(1) bounded-exhaustive: every string of length <= L over a 27-character alphabet of the characters the tokenizer spec distinguishes (< > / ! - ? = \" ' & # ; ] [ a A x s 1 TAB LF CR FF SPACE NUL é É) appended to every start: each of the 24 token-free states cold through TokenizerOpts::initial_state, and ~100 priming prefixes from Data/RCDATA/RAWTEXT/script states reaching every other tokenizer state, partial look-ahead keywords and character-reference prefixes, plus sink policies switching to RCDATA/RAWTEXT/script data/PLAINTEXT/Script on <a>, CDATA allowed or not; (2) random token soup (dictionary of ~130 syntax fragments + arbitrary Unicode + character noise) x random cold start x last-start-tag name x sink policy (HTML-like, generated map from start and end tag names to switches, all-continue) x CDATA answer x exact_errors. Oracle: independent transcription of WHATWG 13.2.5 (refimpl::tokenizer) under the same policy; streams compared after the normalisation the property states. Non-trivial: stream has a non-character token, or the start state is not Data, or a character reference was resolved; distinct by hash of the case.",
     );
     rep.assume("reference tokenizer (harness/src/refimpl/tokenizer.rs) is a faithful transcription of WHATWG HTML 13.2.5; entity table from Python's html.entities.html5");
     rep.assume("cold starts are asserted only for token-free states; other states are entered through priming prefixes");
